@@ -91,6 +91,7 @@ impl FromStr for AttoTokens {
         let converted_units = {
             let units = itr
                 .next()
+                .filter(|s| is_decimal_digits(s))
                 .and_then(|s| s.parse::<Amount>().ok())
                 .ok_or_else(|| {
                     EvmError::FailedToParseAttoToken("Can't parse token units".to_string())
@@ -107,6 +108,11 @@ impl FromStr for AttoTokens {
             if remainder_str.is_empty() {
                 Amount::ZERO
             } else {
+                if !is_decimal_digits(remainder_str) {
+                    return Err(EvmError::FailedToParseAttoToken(
+                        "Can't parse token remainder".to_string(),
+                    ));
+                }
                 let parsed_remainder = remainder_str.parse::<Amount>().map_err(|_| {
                     EvmError::FailedToParseAttoToken("Can't parse token remainder".to_string())
                 })?;
@@ -118,8 +124,17 @@ impl FromStr for AttoTokens {
             }
         };
 
-        Ok(Self(converted_units + remainder))
+        converted_units
+            .checked_add(remainder)
+            .map(Self)
+            .ok_or(EvmError::ExcessiveValue)
     }
+}
+
+/// Only plain decimal notation is accepted: the integer parser underneath would also take
+/// radix prefixes (`0x`, `0o`, `0b`) and `_` separators.
+fn is_decimal_digits(s: &str) -> bool {
+    s.bytes().all(|b| b.is_ascii_digit())
 }
 
 impl Display for AttoTokens {
